@@ -400,11 +400,9 @@ func (d *DNSFilter) refreshFiltersIntl(block, allow, force bool) (int, bool) {
 		toUpd = append(toUpd, toUpdAl...)
 		isNetErr = isNetErr || isNetErrAl
 	}
-	if isNetErr {
-		return 0, true
-	}
-
 	if updNum != 0 {
+		// Rebuild the engines even if the other side could not be reached:
+		// the lists that were replaced on disk must come into force.
 		d.EnableFilters(false)
 
 		for i := range lists {
@@ -420,6 +418,10 @@ func (d *DNSFilter) refreshFiltersIntl(block, allow, force bool) (int, bool) {
 				log.Debug("filtering: removing old filter file %q: %s", p, err)
 			}
 		}
+	}
+
+	if isNetErr {
+		return 0, true
 	}
 
 	return updNum, false
@@ -542,7 +544,9 @@ func (d *DNSFilter) readerFromURL(fltURL string) (r io.ReadCloser, err error) {
 		return nil, err
 	}
 
-	if resp.StatusCode != http.StatusOK {
+	// Some mirrors reply with other successful codes, e.g. 203.  Redirects are
+	// already followed by the client.
+	if resp.StatusCode < http.StatusOK || resp.StatusCode >= http.StatusMultipleChoices {
 		return nil, fmt.Errorf("got status code %d, want %d", resp.StatusCode, http.StatusOK)
 	}
 
